@@ -1,3 +1,5 @@
+use std::collections::HashSet;
+
 use ecow::EcoString;
 
 use super::{record::RecordId, record_field::RecordFieldId, SymbolMap};
@@ -70,6 +72,41 @@ impl Type {
                 self_record.is_subclass_of(symbol_map, *other_record_id)
             }
             _ => self == other,
+        }
+    }
+
+    /// The type of a value that is either a `self` or an `other` (the branches of `!if`): the one
+    /// of the two that the other can be cast to; for two records, the nearest class both inherit
+    /// from (`!if(c, i16, f16)` is a `ValueType`); for two lists, the list of such a type.
+    pub fn common_type(&self, symbol_map: &SymbolMap, other: &Type) -> Option<Type> {
+        if self.can_be_casted_to(symbol_map, other) || other.can_be_casted_to(symbol_map, self) {
+            return Some(self.clone());
+        }
+        match (self, other) {
+            (Self::List(self_elm_typ), Self::List(other_elm_typ)) => {
+                let elm_typ = self_elm_typ.common_type(symbol_map, other_elm_typ)?;
+                Some(Self::List(Box::new(elm_typ)))
+            }
+            (Self::Record(self_record_id, _), Self::Record(other_record_id, _)) => {
+                let other_record = symbol_map.record(*other_record_id);
+                let mut visited = HashSet::new();
+                let mut stack = vec![*self_record_id];
+                while let Some(record_id) = stack.pop() {
+                    if !visited.insert(record_id) {
+                        continue;
+                    }
+                    let record = symbol_map.record(record_id);
+                    if record_id != *self_record_id
+                        && other_record.is_subclass_of(symbol_map, record_id)
+                    {
+                        return Some(Self::Record(record_id, record.name.clone()));
+                    }
+                    // depth first, the first parent first
+                    stack.extend(record.parent_list.iter().rev());
+                }
+                None
+            }
+            _ => None,
         }
     }
 
